@@ -14,6 +14,7 @@ import (
 	"github.com/pkg/errors"
 
 	"github.com/ory/fosite"
+	"github.com/ory/fosite/handler/openid"
 )
 
 // The simulated application: the endpoint glue a fosite user writes, modelled on
@@ -84,6 +85,19 @@ type Basic struct {
 
 func newHTTPRequest(method, path string, query url.Values, form url.Values, basic *Basic, bearer string) *http.Request {
 	target := "https://as.sim" + path
+	// a caller may put parameters of a POST into the URL's query string instead of the body: form keys "_query:<name>"
+	if method == "POST" {
+		for k, v := range form {
+			if strings.HasPrefix(k, "_query:") {
+				if query == nil {
+					query = url.Values{}
+				}
+				query[strings.TrimPrefix(k, "_query:")] = v
+				form = cloneValues(form)
+				delete(form, k)
+			}
+		}
+	}
 	if len(query) > 0 {
 		target += "?" + query.Encode()
 	}
@@ -199,40 +213,70 @@ type Consent struct {
 	AuthAgo     int64    // seconds before the request at which the user authenticated (auth_time); <0: after request
 	NoAuthTime  bool
 	PresetIDExp int64 // >0: session pre-sets the ID token expiry this many seconds from now
+	PresetIDAud bool  // the session pre-sets an additional ID token audience (a resource server); the client must still be named
 	PresetATExp int64 // >0: session pre-sets the access token expiry (honoured by the implicit/hybrid handlers)
 	Extra       map[string]interface{}
 }
 
 // newSession: the application sets the ID-token "alg" header to the algorithm of its signing key
 // (fosite selects the at_hash/c_hash digest from that header).
-func (a *App) newSession(subject string) *SimSession {
-	s := NewSimSession(subject)
+func (a *App) newSession(subject string) fosite.Session {
 	k := a.W.K.IDKey
 	if k == "" {
 		k = "rsa0"
 	}
+	if a.W.K.LibSession && !a.W.K.JWTAccess {
+		// the library's own session type (openid.DefaultSession) instead of the harness': its Clone / expiry map / claims
+		// handling is what most applications run on. (The JWT access-token strategy needs a JWTSessionContainer, which it is not.)
+		s := openid.NewDefaultSession()
+		s.Subject, s.Username = subject, subject
+		s.Claims.Subject = subject
+		s.Claims.Extra = map[string]interface{}{}
+		s.Headers.Add("alg", AlgFor(k))
+		return s
+	}
+	s := NewSimSession(subject)
 	s.Headers.Add("alg", AlgFor(k))
 	return s
 }
 
-func (a *App) session(c *Consent, now time.Time) *SimSession {
-	s := a.newSession(c.Subject)
-	s.Claims.RequestedAt = now
+// setSessionSubject: the application learns the subject after the session object was created (password grant, device flow).
+func setSessionSubject(sess fosite.Session, subject string) {
+	switch s := sess.(type) {
+	case *SimSession:
+		s.SetSubject(subject)
+		s.Username = subject
+		s.Claims.Subject = subject
+	case *openid.DefaultSession:
+		s.Subject, s.Username = subject, subject
+		s.Claims.Subject = subject
+	}
+}
+
+func (a *App) session(c *Consent, now time.Time) fosite.Session {
+	sess := a.newSession(c.Subject)
+	claims := sess.(openid.Session).IDTokenClaims()
+	claims.RequestedAt = now
 	if !c.NoAuthTime {
-		s.Claims.AuthTime = now.Add(-time.Duration(c.AuthAgo) * time.Second).Truncate(time.Second)
+		claims.AuthTime = now.Add(-time.Duration(c.AuthAgo) * time.Second).Truncate(time.Second)
 	}
 	if c.PresetIDExp > 0 {
-		s.Claims.ExpiresAt = now.Add(time.Duration(c.PresetIDExp) * time.Second)
+		claims.ExpiresAt = now.Add(time.Duration(c.PresetIDExp) * time.Second)
+	}
+	if c.PresetIDAud {
+		claims.Audience = []string{"https://resource.sim/api"}
 	}
 	if c.PresetATExp > 0 {
-		s.SetExpiresAt(fosite.AccessToken, now.Add(time.Duration(c.PresetATExp)*time.Second))
+		sess.SetExpiresAt(fosite.AccessToken, now.Add(time.Duration(c.PresetATExp)*time.Second))
 	}
-	for k, v := range c.Extra {
-		// extra claims of the session surface at introspection (ExtraClaimsSession); they are not copied into the
-		// JWT / ID-token claim sets, where the application would be overriding registered claims on purpose
-		s.Extra[k] = v
+	if s, ok := sess.(*SimSession); ok {
+		for k, v := range c.Extra {
+			// extra claims of the session surface at introspection (ExtraClaimsSession); they are not copied into the
+			// JWT / ID-token claim sets, where the application would be overriding registered claims on purpose
+			s.Extra[k] = v
+		}
 	}
-	return s
+	return sess
 }
 
 // Authorize: GET /auth with the user's consent decision.
@@ -253,12 +297,12 @@ func (a *App) Authorize(query url.Values, c *Consent) *Resp {
 			return finish(rec, err, t)
 		}
 		for _, s := range ar.GetRequestedScopes() {
-			if c.Scopes == nil || fosite.Arguments(c.Scopes).Has(s) {
+			if c.Scopes == nil || has(c.Scopes, s) {
 				ar.GrantScope(s)
 			}
 		}
 		for _, aud := range ar.GetRequestedAudience() {
-			if !c.PartialAud || fosite.Arguments(c.Audiences).Has(aud) {
+			if !c.PartialAud || has(c.Audiences, aud) {
 				ar.GrantAudience(aud)
 			}
 		}
@@ -297,9 +341,14 @@ func (a *App) Token(form url.Values, basic *Basic) *Resp {
 			}
 		}
 		if ar.GetGrantTypes().ExactOne("client_credentials") {
-			if ss, ok := ar.GetSession().(*SimSession); ok && ss.Subject == "" {
-				ss.SetSubject(ar.GetClient().GetID())
+			if ar.GetSession().GetSubject() == "" {
+				setSessionSubject(ar.GetSession(), ar.GetClient().GetID())
 			}
+		}
+		// the application keeps the ID-token subject in step with the session subject (the password handler learns the subject
+		// while it authenticates the user and only sets the session's own field)
+		if os, ok := ar.GetSession().(openid.Session); ok && os.IDTokenClaims() != nil && os.IDTokenClaims().Subject == "" {
+			os.IDTokenClaims().Subject = ar.GetSession().GetSubject()
 		}
 		resp, err := p.NewAccessResponse(ctx, ar)
 		if err != nil {
@@ -417,21 +466,19 @@ func (a *App) DeviceVerify(userCode string, accept bool, subject string, grant [
 		if accept {
 			r.SetUserCodeState(fosite.UserCodeAccepted)
 			for _, s := range r.GetRequestedScopes() {
-				if grant == nil || fosite.Arguments(grant).Has(s) {
+				if grant == nil || has(grant, s) {
 					r.GrantScope(s)
 				}
 			}
 			for _, aud := range r.GetRequestedAudience() {
-				if grantAud == nil || fosite.Arguments(grantAud).Has(aud) {
+				if grantAud == nil || has(grantAud, aud) {
 					r.GrantAudience(aud)
 				}
 			}
-			if ss, ok := r.GetSession().(*SimSession); ok {
-				ss.SetSubject(subject)
-				ss.Username = subject
-				ss.Claims.Subject = subject
-				ss.Claims.RequestedAt = r.GetRequestedAt()
-				ss.Claims.AuthTime = time.Now().UTC().Truncate(time.Second)
+			setSessionSubject(r.GetSession(), subject)
+			if os, ok := r.GetSession().(openid.Session); ok {
+				os.IDTokenClaims().RequestedAt = r.GetRequestedAt()
+				os.IDTokenClaims().AuthTime = time.Now().UTC().Truncate(time.Second)
 			}
 		} else {
 			r.SetUserCodeState(fosite.UserCodeRejected)
@@ -448,3 +495,4 @@ func (a *App) DeviceVerify(userCode string, accept bool, subject string, grant [
 	}
 	return ""
 }
+
